@@ -45,6 +45,17 @@ def configs():
                     schemas[c] = {"allOf": [R("Base"), {"type": "object", "properties": props}]}
                 out.append({"name": f"base/{len(allv)}tags/{tagtype}/{'backref' if backref else 'flat'}", "spec": wrap(schemas),
                             "unions": [{"name": "Base", "kind": "base", "prop": "kind", "mapping": mapping, "members": sorted(tags), "base": "BaseBase"}]})
+    # ---- A2: two-level hierarchy: the mapped schemas are grandchildren of the base through an unmapped intermediate schema
+    for tagtype in ("string", "enum"):
+        mapping = {"a": "Alpha", "a2": "Alpha", "b": "Beta", "g": "Gamma"}
+        schemas = {"Base": {"type": "object", "required": ["kind"], "properties": {"kind": tag_schema(tagtype, sorted(mapping)), "label": {"type": "string"}},
+                            "discriminator": {"propertyName": "kind", "mapping": {t: f"#/components/schemas/{c}" for t, c in mapping.items()}}},
+                   "Mid": {"allOf": [R("Base"), {"type": "object", "properties": {"mid": {"type": "string"}}}]}}
+        for c, parent in (("Alpha", "Mid"), ("Beta", "Mid"), ("Gamma", "Base")):
+            f, ty, _ = CHILD_FIELDS[c]
+            schemas[c] = {"allOf": [R(parent), {"type": "object", "properties": {f: {"type": ty}}}]}
+        out.append({"name": f"base/grandchildren/{tagtype}", "spec": wrap(schemas),
+                    "unions": [{"name": "Base", "kind": "base", "prop": "kind", "mapping": mapping, "members": ["Alpha", "Beta", "Gamma"], "base": "BaseBase"}]})
     # ---- B/C/D: oneOf / anyOf with discriminator
     for kw in ("oneOf", "anyOf"):
         for mode in ("explicit", "explicit-multi", "const", "partial", "extra-target", "no-mapping-no-const"):
@@ -391,5 +402,14 @@ def classify(c, u, p, o, em):
 def classify_tag(c, u, p, back):
     """narrow classes for a tag that does not survive decode -> encode"""
     if u["prop"] not in back:
+        # the recorded class is about HIDDEN tag members (plain string / const tags); a tag declared as a multi-valued
+        # enum is an ordinary visible member and has to survive
+        sch = c["spec"]["components"]["schemas"]
+        owner = sch.get("Base") if u["kind"] == "base" else sch.get(p.get("schema"))
+        ps = ((owner or {}).get("properties") or {}).get(u["prop"]) or {}
+        if "$ref" in ps:
+            ps = sch.get(ps["$ref"].split("/")[-1], {})
+        if len(ps.get("enum", [])) >= 2:
+            return None
         return "tag-lost-on-reencode"
     return None
